@@ -78,8 +78,8 @@ class Ty:
             return ()
         if k == "enum":
             return (enum_info(self.name)[0],)
-        if k == "ref":
-            return (RefSort,)
+        if k in ("ref", "method"):
+            return (RefSort,)        # method: a bound method value = its receiver (the method is part of the type)
         if k == "opt":
             return (z3.BoolSort(),) + self.args[0].sorts()
         if k == "set":
@@ -145,7 +145,7 @@ def Enum(name):
     return Ty("enum", (), name)
 
 
-_TOK = re.compile(r"\s*([A-Za-z_][A-Za-z_0-9]*|\[|\]|,)")
+_TOK = re.compile(r"\s*([A-Za-z_][A-Za-z_0-9]*|\[|\]|,|\.)")
 
 
 def parse_ty(text):
@@ -176,6 +176,13 @@ def parse_ty(text):
                 nm = take()
                 take("]")
                 return Ref(nm) if head == "Ref" else Enum(nm)
+            if head == "Method":
+                nm = take()
+                while peek() == ".":
+                    take(".")
+                    nm += "." + take()
+                take("]")
+                return Ty("method", (), nm)
             args.append(parse())
             while peek() == ",":
                 take(",")
